@@ -46,7 +46,8 @@ EXPECTED_PROBES = ("module-file-reloaded-by-later-process", "modtemplate", "mako
 
 ENC = {"utf8": "utf-8", "latin1": "latin-1", "cp1251": "cp1251", "ascii": "ascii"}
 DECO = {"utf8": "grüß€Ж", "latin1": "grüßé", "cp1251": "ЖивоЯ", "ascii": "plain"}
-CTX = {"x": "X1", "y": "<b>&amp;", "dflt": "DF", "z": "Zz", "a1": "A1", "a2": "A2", "a3": "A3", "a4": "A4", "a5": "A5", "e": ""}
+CTX = {"x": "X1", "y": "<b>&amp;", "dflt": "DF", "z": "Zz", "a1": "A1", "a2": "A2", "a3": "A3", "a4": "A4", "a5": "A5", "e": "",
+       "q": "u=v==w&x=1"}
 
 
 # ---------------------------------------------------------------- generator
@@ -71,7 +72,7 @@ def gen_program(rng, k, uri, enc):
         j += 1
         feats.append(f)
         if f == "expr":
-            body.append("${x}|${y | h}|${y | n}|${z | u}|${x if x else 'none'}")
+            body.append("${x}|${y | h}|${y | n}|${z | u}|${x if x else 'none'}|${q}")
         elif f == "modcode":
             body.insert(0, "<%%! import re\nCONST%d = %d\ndef helper%d(s):\n    return re.sub('X', 'Y', s)\n%%>" % (j, j * 7, j))
             body.append("${CONST%d}${helper%d(x)}" % (j, j))
@@ -159,6 +160,10 @@ def gen_program(rng, k, uri, enc):
         text += '<%%inherit file="/base%d.html"/>' % k
         defs.append('<%def name="title()">child-title</%def>')
         names.append("title")
+        # a def that reaches into the inheritance chain: get_def(name).render() must set the chain up like render()
+        defs.append('<%%def name="pd%d()">PD(${parent.title()}|${self.title()})</%%def>' % k)
+        names.append("pd%d" % k)
+        body.append("<<pd%d>>${pd%d()}<</pd%d>>" % (k, k, k))
     text += "".join(defs) + "".join(body)
     return {"uri": uri, "encoding": enc, "text": text, "files": files, "defs": names, "marker": marker, "features": feats,
             "inherit": inherit, "shadow": bool(files) and rng.random() < 0.5,
@@ -396,7 +401,7 @@ def execute(trace, root):
             full = o["renders"]["render"]
             if full["status"] == "ok":
                 for name, r in sorted(o["renders"].items()):
-                    if not name.startswith("get_def:fz"):
+                    if not name.startswith(("get_def:fz", "get_def:pd")):
                         continue
                     dn = name.split(":", 1)[1]
                     m = re.search(r"<<%s>>(.*?)<</%s>>" % (dn, dn), full["text"], re.S)
